@@ -35,3 +35,34 @@ func TestVerifFindingMacroBehindTypeAhead(t *testing.T) {
 		t.Errorf("macro Q=abc, typed \"Qd\" in one read: buffer %q, want %q", got, "abcd")
 	}
 }
+
+// C18: (*macro.Engine).RunMacro/post:feeds-unescaped — running a macro by name only replaces \e and feeds
+// every other escape (\C-a, \t, \\ ...) as literal characters.
+func TestVerifFindingRunMacroNotUnescaped(t *testing.T) {
+	typed := newSession(true)
+	typed.keys("\x1b", "iab", "\x01", "X", "\x1b") // command mode, insert ab, C-a (beginning of line), insert X, back to command mode
+	want := typed.buffer()
+
+	rec := newSession(true)
+	rec.keys("\x1b", "q", "a", "iab", "\x01", "X", "\x1b", "q") // record the same keys into register a
+	rec.rl.line.Set()
+	rec.rl.cursor.Set(0)
+	rec.keys("@", "a") // replay on an empty buffer
+	if got := rec.buffer(); got != want {
+		t.Errorf("replaying the macro gives %q, typing its keys gives %q", got, want)
+	}
+}
+
+// C02 probe: what does typing non-ASCII text return?
+func TestVerifProbeTypeUnicode(t *testing.T) {
+	for _, in := range []string{"é", "héllo", "日本", "a😀b", "x y"} {
+		s := newSession(false)
+		s.rl.Config.Set("convert-meta", false)
+		s.rl.Config.Set("input-meta", true)
+		s.rl.Config.Set("output-meta", true)
+		s.keys(in)
+		if got := s.buffer(); got != in {
+			t.Errorf("typed %q, buffer %q", in, got)
+		}
+	}
+}
